@@ -696,9 +696,33 @@ class _TagReturns(ast.NodeTransformer):
         return ast.copy_location(new, node)
 
 
+class _TagCalls(ast.NodeTransformer):
+    """f(args) -> __vc.at(k, 'f', f)(args) for the named callables (k = ordinal of the call site in the function)"""
+
+    def __init__(self, names):
+        self.names = set(names)
+        self.k = {}
+
+    def visit_FunctionDef(self, node):
+        return node
+
+    def visit_Call(self, node):
+        self.generic_visit(node)
+        if isinstance(node.func, ast.Name) and node.func.id in self.names:
+            k = self.k.get(node.func.id, 0)
+            self.k[node.func.id] = k + 1
+            node.func = _call('at', ast.Constant(k), ast.Constant(node.func.id), ast.Name(id=node.func.id, ctx=ast.Load()))
+        return node
+
+
 class LoopCut(ast.NodeTransformer):
-    def __init__(self, cuts, tag=()):
+    def __init__(self, cuts, tag=(), hyps=(), sites=()):
+        self.sites = dict(sites)      # {function qualname: [callable names whose call sites are tagged]}
+        self._init0(cuts, tag, hyps)
+
+    def _init0(self, cuts, tag=(), hyps=()):
         self.tag = set(tag)
+        self.hyps = set(hyps)        # {(function qualname, variable name)}: named hypothesis after each assignment
         self._init(cuts)
 
     def _init(self, cuts):
@@ -719,6 +743,9 @@ class LoopCut(ast.NodeTransformer):
         if qual in self.tag:
             tr = _TagReturns()
             node.body = [tr.visit(st) for st in node.body]
+        if qual in self.sites:
+            tc = _TagCalls(self.sites[qual])
+            node.body = [tc.visit(st) for st in node.body]
         node.body = self._block(node.body, qual, list(params))
         self.defined_stack.pop()
         self.fn_stack.pop()
@@ -756,6 +783,12 @@ class LoopCut(ast.NodeTransformer):
                 out.append(st)
             else:
                 out.append(st)
+            if isinstance(st, (ast.Assign, ast.AugAssign)):
+                for n in assigned_names([st]):
+                    if (qual, n) in self.hyps:
+                        h = ast.Expr(_call('hyp', ast.Constant('%s:%s' % (qual, n)), ast.Name(id=n, ctx=ast.Load())))
+                        ast.copy_location(h, st)
+                        out.append(h)
             for n in assigned_names([st]):
                 if n not in defined:
                     defined.append(n)
@@ -806,6 +839,7 @@ class VC:
 
     def __init__(self):
         self.loops = {}       # label -> LoopSpec
+        self.hypotheses = {}  # 'qual:var' -> fn(value) -> term (named hypothesis, listed in the evidence)
 
     def loop_entry(self, label, live):
         spec = self.loops[label]
@@ -861,6 +895,15 @@ class VC:
         for name, cl in spec.inv(live, cur()).items():
             check('%s/loop-invariant/step/%s' % (label, name), cl)
 
+    def at(self, k, name, fn):
+        cur().ghost['callsite:' + name] = k
+        return fn
+
+    def hyp(self, label, value):
+        f = self.hypotheses.get(label)
+        if f is not None:
+            assume(f(value))
+
     def pick(self, local_vars, names):
         return {k: local_vars[k] for k in names if k in local_vars}
 
@@ -892,7 +935,7 @@ class LoopSpec:
 # loader
 # ---------------------------------------------------------------------------
 
-def load_module(relpath, cuts=(), overrides=None, modname=None, tag=()):
+def load_module(relpath, cuts=(), overrides=None, modname=None, tag=(), hyps=(), sites=()):
     """parse /repo/<relpath>, cut the loops in ``cuts`` ({(qualname, ordinal)}), exec with shims.
     Returns (namespace dict, vc object, info dict)."""
     install_sksparse_stub()
@@ -900,7 +943,7 @@ def load_module(relpath, cuts=(), overrides=None, modname=None, tag=()):
     with open(path) as f:
         src = f.read()
     tree = ast.parse(src, filename=path)
-    lc = LoopCut(set(cuts), tag)
+    lc = LoopCut(set(cuts), tag, hyps, sites)
     tree = lc.visit(tree)
     ast.fix_missing_locations(tree)
     missing = set(cuts) - lc.done
